@@ -1633,3 +1633,58 @@ def header_count(prog, rep, rule="W9-count"):
         rep.check(ok, rule, "each header line counted is one line of the tokenizer (findeol, skip %d) that later extracts it" % K, inc.where, why,
                   function=f.name, construct="count-tokenizer")
     return n
+
+
+def header_lookup(prog, rep, rule="W9-lookup"):
+    """http_findheader answers with the value of a header whose NAME IS the one asked for: every return of a `.value` of element
+    i is controlled by a whole-string comparison (strcmp / strcasecmp == 0) of that same element's `.header` with the name
+    parameter -- or by a counted comparison over strlen(name) together with a test that the element's name ends there.  A counted
+    comparison alone accepts every header the name is a prefix of ("Content-Length-Hint" for "Content-Length")."""
+    u = prog.unit(UNIT)
+    f = u.func("http_findheader")
+    if f is None:
+        raise cdb.AnalysisBroken("anchor missing: http_findheader")
+    NAME = ("v", f.params[2]["name"], f.params[2]["id"])
+    n = 0
+    for r in f.returns():
+        if not r.kids:
+            continue
+        v = f.expand(norm(r.kid(0))) if hasattr(f, "expand") else norm(r.kid(0))
+        if v == ("c", 0):
+            continue
+        n += 1
+        ok, why = False, "the value returned (%s) is not an element's .value" % show(v)
+        if v[0] == "." and v[2] == "value":
+            elem = v[1]
+            hdr = (".", elem, "header")
+            atoms = [(op, f.expand(L), R) for cond, truth in f.edge_conds(r) for op, L, R, _, _ in cond_atoms(cond, truth)]
+            whole = [L for op, L, R in atoms if op == "==" and R == ("c", 0) and L[0] == "call" and L[1] in ("strcmp", "strcasecmp")
+                     and set(f.expand(x) for x in L[2:4]) == {hdr, NAME}]
+            counted = [L for op, L, R in atoms if op == "==" and R == ("c", 0) and L[0] == "call" and L[1] in ("strncmp", "strncasecmp", "memcmp")
+                       and set(f.expand(x) for x in L[2:4]) == {hdr, NAME}]
+            ok = bool(whole)
+            why = "no strcmp/strcasecmp(%s, %s) == 0 controls this return" % (show(hdr), show(NAME))
+            if not ok and counted:
+                ln = f.expand(counted[0][4])
+                ends = any(op == "==" and R == ("c", 0) and L == ("[]", hdr, ln) for op, L, R in atoms)
+                if ln[0] == "v" and len(ln) > 2:
+                    # a local whose one definition is strlen(name)
+                    defs = [norm(e.kid(1)) for e in f.all_elems() if (e.is_assign or e.is_incdec) and norm(e.kid(0)) == ln and e.kid(1) is not None]
+                    defs += [norm(f.elem(d["init"])) if d.get("init") else None for e in f.all_elems() if e.cls == "DeclStmt" for d in (e.decls or [])
+                             if isinstance(d, dict) and d.get("id") == ln[2]]
+                    nwr = len([e for e in f.all_elems() if (e.is_assign or e.is_incdec) and norm(e.kid(0)) == ln])
+                    defs = [d for d in defs if d is not None]
+                    if len(defs) == 1 and nwr <= 1:
+                        d0 = defs[0]
+                        while d0[0] == "cast":
+                            d0 = d0[-1]
+                        if d0 == ("call", "strlen", NAME):
+                            ln = d0
+                    ends = ends or any(op == "==" and R == ("c", 0) and L[0] == "[]" and L[1] == hdr and L[2][0] == "v" and L[2][2] == counted[0][4][2]
+                                       for op, L, R in atoms if len(counted[0][4]) > 2)
+                ok = ln == ("call", "strlen", NAME) and ends
+                why = "the comparison is over the first %s characters only and nothing tests that the header's name ends there: every header the name asked for is a prefix of matches" % show(ln)
+        rep.check(ok, rule, "http_findheader returns the value of the header whose whole name matches", r.where, why, function=f.name, construct="lookup-whole")
+    if n < 1:
+        raise cdb.AnalysisBroken("http_findheader returns no value")
+    return n
